@@ -37,6 +37,7 @@ pub fn dispatch(mode: &str, a: &Args) -> Option<Args> {
     Some(match mode {
         "conn_run" => conn_run(a),
         "req_new" => req_new(a),
+        "flush_fault" => flush_fault(a),
         _ => return None,
     })
 }
@@ -494,6 +495,112 @@ fn req_new(a: &Args) -> Args {
     let mut res = vec![head, vec![(consumed0 + w.pos) as u128, w.ri.min(w.rscript.len()) as u128, w.wi.min(w.wscript.len()) as u128], nums(&w.wlog)];
     res.extend(ev.lock().unwrap_or_else(|e| e.into_inner()).iter().cloned());
     res
+}
+
+/// flush_fault <variant, fail_at>: the transport's poll_flush fails (the place where buffering transports report failed writes) at its
+/// fail_at-th call; the handler does not drop the writer at once but goes on: variant 0 writes a note through ANOTHER StreamWriter,
+/// 1 writes again through the SAME writer, 2 reads its input (a management record is waiting, its reply needs the output lock),
+/// 3 returns the error at once.  Harness-side assertion: the connection task ends (no hang on the output lock, no panic);
+/// observation [1].  The scripted world of conn_run has no flush faults (the model's flush never fails), hence this separate mode.
+fn flush_fault(a: &Args) -> Args {
+    struct FlushFail {
+        calls: usize,
+        fail_at: usize,
+        log: Arc<Mutex<Vec<u8>>>,
+    }
+    impl AsyncWrite for FlushFail {
+        fn poll_write(self: Pin<&mut Self>, _: &mut Context, b: &[u8]) -> Poll<io::Result<usize>> {
+            self.log.lock().expect("log").extend_from_slice(b);
+            Poll::Ready(Ok(b.len()))
+        }
+        fn poll_flush(mut self: Pin<&mut Self>, _: &mut Context) -> Poll<io::Result<()>> {
+            self.calls += 1;
+            if self.calls == self.fail_at {
+                Poll::Ready(Err(io::ErrorKind::BrokenPipe.into()))
+            } else {
+                Poll::Ready(Ok(()))
+            }
+        }
+        fn poll_close(self: Pin<&mut Self>, _: &mut Context) -> Poll<io::Result<()>> {
+            Poll::Ready(Ok(()))
+        }
+    }
+    struct Once(Vec<u8>, usize);
+    impl AsyncRead for Once {
+        fn poll_read(mut self: Pin<&mut Self>, _: &mut Context, buf: &mut [u8]) -> Poll<io::Result<usize>> {
+            let n = buf.len().min(self.0.len() - self.1);
+            if n == 0 {
+                return Poll::Pending;             // the client waits for the response
+            }
+            let p = self.1;
+            buf[..n].copy_from_slice(&self.0[p..p + n]);
+            self.1 += n;
+            Poll::Ready(Ok(n))
+        }
+    }
+    fn mk(variant: u128, fail_at: usize) -> impl for<'a, 'b> FnMut(&'a mut Request<'b, Once, FlushFail>) -> BoxFuture<'a, io::Result<ExitStatus>> {
+        move |req| {
+            Box::pin(async move {
+                let mut out = req.output_stream(RecordType::Stdout);
+                let mut errw = req.output_stream(RecordType::Stderr);
+                out.write_all(b"hello").await?;
+                let mut first: Option<io::Error> = None;
+                for _ in 0..fail_at {
+                    if let Err(e) = out.flush().await {
+                        first = Some(e);
+                        break;
+                    }
+                }
+                let Some(e) = first else { return Ok(ExitStatus::SUCCESS) };
+                match variant {
+                    0 => { let _ = errw.write_all(b"flush failed").await; },
+                    1 => { let _ = out.write_all(b"again").await; },
+                    2 => { let mut buf = [0u8; 16]; let _ = req.read(&mut buf).await; },
+                    _ => {},
+                }
+                drop(out);
+                drop(errw);
+                Err(e)
+            })
+        }
+    }
+    let cfgv = arg(a, 0);
+    let variant = cfgv.first().copied().unwrap_or(0);
+    let fail_at = (cfgv.get(1).copied().unwrap_or(1) as usize).max(1);
+    // BeginRequest(id 1, Responder, KeepConn) + empty Params + Stdin "abc" + GetValues(FCGI_MPXS_CONNS) + empty Stdin
+    let mut wire = vec![1u8, 1, 0, 1, 0, 8, 0, 0, 0, 1, 1, 0, 0, 0, 0, 0, 1, 4, 0, 1, 0, 0, 0, 0, 1, 5, 0, 1, 0, 3, 0, 0, 97, 98, 99];
+    wire.extend_from_slice(&[1, 9, 0, 0, 0, 17, 0, 0, 15, 0]);
+    wire.extend_from_slice(b"FCGI_MPXS_CONNS");
+    wire.extend_from_slice(&[1, 5, 0, 1, 0, 0, 0, 0]);
+    let log = Arc::new(Mutex::new(Vec::new()));
+    let r = catch_unwind(AssertUnwindSafe(|| {
+        let flag = Arc::new(Flag(AtomicBool::new(false)));
+        let waker = Waker::from(flag.clone());
+        let mut cx = Context::from_waker(&waker);
+        let runner = config(256, 1).async_runner();
+        let token = {
+            let fut = runner.get_token();
+            futures_util::pin_mut!(fut);
+            match fut.poll(&mut cx) {
+                Poll::Ready(t) => t,
+                Poll::Pending => panic!("no token"),
+            }
+        };
+        let handler = mk(variant, fail_at);
+        let mut task: Pin<Box<dyn Future<Output = ()>>> =
+            Box::pin(token.run(Once(wire, 0), FlushFail { calls: 0, fail_at, log: log.clone() }, handler));
+        let mut polls = 0;
+        loop {
+            polls += 1;
+            flag.0.store(false, Ordering::SeqCst);
+            if task.as_mut().poll(&mut cx).is_ready() {
+                break;
+            }
+            assert!(flag.0.load(Ordering::SeqCst), "after a failed flush the connection task is suspended and nobody will wake it (it waits for the output lock)");
+            assert!(polls < 10_000, "the connection task spins after a failed flush");
+        }
+    }));
+    if r.is_err() { vec![vec![PANIC]] } else { vec![vec![1]] }
 }
 
 fn conn_run(a: &Args) -> Args {
